@@ -81,6 +81,15 @@ func generate(prop, stream string, r *hutil.Rng, i int) Case {
 	case prop == "c03" && stream == "clean" && i%4 == 1:
 		sc, meta := sfuScenario(r, i, stream)
 		return Case{Scenario: sc, Meta: meta}
+	case prop == "c18" && stream == "clean" && i%8 == 5:
+		sc, meta := etxScenario(r, i)
+		return Case{Scenario: sc, Meta: meta}
+	case prop == "c18" && stream == "clean" && i%16 == 3:
+		sc, meta := autostepScenario(r, i)
+		return Case{Scenario: sc, Meta: meta}
+	case prop == "c18" && stream == "clean" && i%16 == 7:
+		sc, meta := refreshScenario(r, i)
+		return Case{Scenario: sc, Meta: meta}
 	case prop == "c03" && stream == "malformed" && i%3 == 0:
 		sc, meta := sfuBadScenario(r, i)
 		return Case{Scenario: sc, Meta: meta}
